@@ -159,6 +159,9 @@ func (state *Runtime) LetGlobal(name string, val interface{}) {
 		sc = sc.parent
 	}
 
+	if sc.variables == nil {
+		sc.variables = make(VarMap) // Execute was called with a nil VarMap and no template scope is open yet
+	}
 	sc.variables[name] = reflect.ValueOf(val)
 }
 
@@ -169,6 +172,9 @@ func (state *Runtime) Set(name string, val interface{}) error {
 
 // Let initialises a variable in the current template scope (possibly shadowing an existing variable of the same name in a parent scope).
 func (state *Runtime) Let(name string, val interface{}) {
+	if state.scope.variables == nil {
+		state.scope.variables = make(VarMap) // Execute was called with a nil VarMap and no template scope is open yet
+	}
 	state.scope.variables[name] = reflect.ValueOf(val)
 }
 
